@@ -7,6 +7,7 @@ import (
 	"errors"
 	"fmt"
 	"io"
+	"os"
 	"strings"
 	"testing"
 
@@ -52,6 +53,50 @@ type faultReader struct {
 	// no read crosses that offset
 	zeroAt   int
 	zeroDone bool
+	// zeroBurst: that many empty reads in a row there (0 = one)
+	zeroBurst int
+	zeroSeen  int
+}
+
+// idleBeforeEOF delivers its data and then answers `idle` reads with (0, nil) before io.EOF.
+type idleBeforeEOF struct {
+	data []byte
+	pos  int
+	idle int
+}
+
+func (r *idleBeforeEOF) Read(p []byte) (int, error) {
+	if len(p) == 0 {
+		return 0, nil
+	}
+	if r.pos >= len(r.data) {
+		if r.idle > 0 {
+			r.idle--
+			return 0, nil
+		}
+		return 0, io.EOF
+	}
+	n := copy(p, r.data[r.pos:])
+	r.pos += n
+	return n, nil
+}
+
+// closingReader is what a file-backed store hands out: an io.ReadCloser that refuses reads once it is closed.
+type closingReader struct {
+	io.Reader
+	closed bool
+}
+
+func (r *closingReader) Read(p []byte) (int, error) {
+	if r.closed {
+		return 0, os.ErrClosed
+	}
+	return r.Reader.Read(p)
+}
+
+func (r *closingReader) Close() error {
+	r.closed = true
+	return nil
 }
 
 func (r *faultReader) Read(p []byte) (int, error) {
@@ -72,7 +117,10 @@ func (r *faultReader) Read(p []byte) (int, error) {
 		return 0, io.EOF
 	}
 	if r.zeroAt > 0 && r.pos == r.zeroAt && !r.zeroDone {
-		r.zeroDone = true
+		r.zeroSeen++
+		if r.zeroSeen > r.zeroBurst {
+			r.zeroDone = true
+		}
 		return 0, nil
 	}
 	n := len(p)
@@ -165,6 +213,12 @@ func c06Check(c C06Case, rec *evid.Rec) error {
 		b := append([]byte{}, block[:l]...)
 		faults = append(faults, c06Fault{class: "truncate", served: b, rd: plain(b)})
 	}
+	// a truncated block whose reader idles (once, twice, five times in a row) before it reports the end
+	for l := 1; l < len(block); l++ {
+		b := append([]byte{}, block[:l]...)
+		burst := []int{0, 1, 4}[l%3]
+		faults = append(faults, c06Fault{class: "truncate+idle", served: b, rd: func() io.Reader { return &idleBeforeEOF{data: b, idle: burst + 1} }})
+	}
 	exts := [][]byte{{0x00}, {' '}, {'\n'}, {0xff}, append([]byte{}, block...), c.Tail, {' ', ' ', '\t', '\r', '\n'}}
 	for _, e := range exts {
 		if len(e) == 0 {
@@ -197,6 +251,8 @@ func c06Check(c C06Case, rec *evid.Rec) error {
 		for k := 1; k <= len(block); k++ {
 			k := k
 			faults = append(faults, c06Fault{class: "zero-read", served: block, rd: func() io.Reader { return &faultReader{data: block, failAt: -1, zeroAt: k} }})
+			// and with two and five empty reads in a row there
+			faults = append(faults, c06Fault{class: "zero-read", served: block, rd: func() io.Reader { return &faultReader{data: block, failAt: -1, zeroAt: k, zeroBurst: 1 + 3*(k%2)} }})
 		}
 	}
 	if otherBlock != nil && !bytes.Equal(otherBlock, block) {
@@ -276,6 +332,9 @@ func c06Check(c C06Case, rec *evid.Rec) error {
 					if inner, ierr := lsys.LoadRaw(linking.LinkContext{Ctx: context.Background()}, otherLnk); ierr != nil || !bytes.Equal(inner, otherBlock) {
 						return nil, fmt.Errorf("harness: the inner load of the layered opener failed: %v", ierr)
 					}
+				}
+				if (fi+li)%2 == 1 {
+					return &closingReader{Reader: f.rd()}, nil
 				}
 				return f.rd(), nil
 			}
